@@ -70,7 +70,10 @@ def bad_line(r, idx):
   if c == 11:
     return r.choice([b'\x00', b'\x00 \x00 \x00', b'a\x00b 1', b'\xef\xbb\xbf']), 'garbage'
   if c == 12:
-    return nb + r.choice([b' 1_0_ 2', b' 1 \xd9\xa3x', b' \xe2\x88\x9e 2', b' 1 2\xc2\xa0 3 4']), 'bad'
+    return nb + r.choice([b' 1_0_ 2', b' 1 \xd9\xa3x', b' \xe2\x88\x9e 2', b' 1 2\xc2\xa0 3 4',
+                          # separators that are whitespace for split() but line boundaries for str.splitlines()
+                          b'\x0cfrag 2 200', b' 1 2\x1cextra 3 4', b'\xc2\x85x 1 2', b' 1\xe2\x80\xa8x 2 3', b'\x0b1\x0b2\x0b3',
+                          b' 1 2\x1d', b'\x1e\x1e']), 'bad4'
   if c == 13:
     return nb + b' ' + b'9' * 400 + b'x 2', 'bad'
   if c == 14:
@@ -216,7 +219,7 @@ def run_config(cfg, res):
           items.append(('good', exp))
         else:
           b, kind = bad_line(r, idx)
-          if kind == 'garbage':
+          if kind in ('garbage', 'bad4'):
             k2, v2 = codec.parse_line_bytes(b)
             if k2 == 'ok':
               items.append(('good', v2))
@@ -245,7 +248,7 @@ def run_config(cfg, res):
           items = cut_items
         # cross-check construction against the reference decoder
         exp_good = [e for k, e in items if k == 'good']
-        ref_names = [g[0] for g in refgot if not g[0].startswith('x')]
+        ref_names = [g[0] for g in refgot if g[1][0] >= 0]      # negative timestamps are the unspecified ('opt') items
         if [e[0] for e in exp_good] != ref_names:
           res.inconc('reference decoder and constructed expectation disagree: %r vs %r' % (ref_names[:5], [e[0] for e in exp_good][:5]))
           continue
